@@ -620,7 +620,10 @@ def check_tan(obj, V, tris, UV, uvtris, Ndir, ntris, model_dirs=None, degenerate
             n = fvec(nrm[nidx[i][k]])
             bound = EPS_TAN2 * K[v] * A[v] * dot(S, S) ** 2
             where = 'corner %d of triangle %d (vertex %d, in %d corners)' % (k, i, v, K[v])
-            if G == (0, 0, 0):
+            # (parallel up to the rounding of the inputs: the residual is the difference of two equal numbers of seven digits —
+            #  after a trip through the writer's '%.7g' a direction that was exactly parallel no longer is, by parts in 10^7)
+            near = dot(G, G) * 2 ** 24 <= dot(S, S) ** 2 * dot(T[v], T[v])
+            if G == (0, 0, 0) or near:
                 # accumulated tangent parallel to the normal: no tangent exists
                 if any(x != x for x in map(float, tan)) or not len_ok(tan) or dot(tan, n) ** 2 > Fr(1, 2 ** 20):
                     degenerate.append(('gentangents:tangent-parallel-to-normal', '%s: accumulated s direction %s is parallel to the normal %s; generated tangent %s is not a unit vector orthogonal to the normal'
